@@ -31,6 +31,15 @@ def _is_table_item(e: ast.AST) -> bool:
     return isinstance(e, ast.Subscript) and (attr_chain(e.value) or '').split('.')[-1] == TABLE
 
 
+def _one_arg(c: ast.Call, name: str) -> T.Optional[ast.AST]:
+    """The single operand of a one-parameter method call, passed by position or by keyword."""
+    if len(c.args) == 1 and not c.keywords and not isinstance(c.args[0], ast.Starred):
+        return c.args[0]
+    if not c.args and len(c.keywords) == 1 and c.keywords[0].arg == name:
+        return c.keywords[0].value
+    return None
+
+
 class Roles:
     def __init__(self, mod: Module):
         self.mod = mod
@@ -77,8 +86,8 @@ class Roles:
         ch = attr_chain(e)
         if ch is not None and '.' in ch:
             return {'C'} if ch.split('.')[-1] == COND and ch.split('.')[0] == 'self' else {f'?{ch}'}
-        if isinstance(e, ast.Call) and isinstance(e.func, ast.Attribute) and e.func.attr == 'intersect' and len(e.args) == 1 and not e.keywords:
-            a, b = self.role(fn, e.func.value, depth, busy), self.role(fn, e.args[0], depth, busy)
+        if isinstance(e, ast.Call) and isinstance(e.func, ast.Attribute) and e.func.attr == 'intersect' and _one_arg(e, 'x') is not None:
+            a, b = self.role(fn, e.func.value, depth, busy), self.role(fn, _one_arg(e, 'x'), depth, busy)     # type: ignore[arg-type]
             if (a, b) in (({'P'}, {'C'}), ({'C'}, {'P'})):
                 return {'N'}
             if any(x.startswith('?') for x in a | b):
@@ -136,9 +145,12 @@ def r5(ctx: RuleCtx) -> None:
     n_always = 0
     for q, fn in roles.funcs.items():
         for c in walk_no_nested(fn, include_root=False):
-            if not (isinstance(c, ast.Call) and isinstance(c.func, ast.Attribute) and c.func.attr == 'always' and len(c.args) == 1 and not c.keywords):
+            if not (isinstance(c, ast.Call) and isinstance(c.func, ast.Attribute) and c.func.attr == 'always'):
                 continue
-            recv, arg = roles.role(fn, c.func.value), roles.role(fn, c.args[0])
+            operand = _one_arg(c, 'inner')
+            if operand is None:
+                raise Undecided(f'{q}: cannot bind the argument of {short(c)}')
+            recv, arg = roles.role(fn, c.func.value), roles.role(fn, operand)
             if _unknown(recv, arg):
                 raise Undecided(f'{q}: cannot name the origin of the operands of {short(c)}: {_unknown(recv, arg)}')
             n_always += 1
